@@ -49,7 +49,10 @@ RULE_ADDED = (
               ' them. '
               ' '
               'Round 15: certificate objects built twice from the same dict: same verdicts as f'
-              'rom the file, dict unchanged. ')
+              'rom the file, dict unchanged. '
+              ' '
+              "Round 16: certifier names that are parts of the root's name, or it in another ca"
+              'se / padded / doubled. ')
 RULE = RULE + " " + RULE_ADDED.strip()
 ASSUMPTIONS = [
     "oracle: pv/oracle/certv1.py (own secp256k1 arithmetic, ECDSA by cryptography/OpenSSL); "
